@@ -1,5 +1,5 @@
 SPECIFICATION Spec
-CONSTANTS Family = "api" Mode = "automaton" Sample = 0 MaxPos = 0
+CONSTANTS Family = "cli" Mode = "automaton" Sample = 0 MaxPos = 0
 INVARIANTS TypeOK Repeatable ParseErrorEnds ErrorValueNotExported
 PROPERTY Terminates
 CHECK_DEADLOCK FALSE
